@@ -191,7 +191,10 @@ def eval_case(c):
             vr = vm.reference(1600., P, 1e21, 1600., E, Vv)
             if not close(vr, 1e21, 4):
                 V('viscosity-reference-value', f'reference law at the reference temperature gives {vr!r}')
-            va = vm.reference(np.array([T, T * fac]), np.array([P, P]), 1e21, 1600., E, Vv)
+            from harness.purity import pure_call
+            va, iss = pure_call(vm.reference, np.array([T, T * fac]), np.array([P, P]), 1e21, 1600., E, Vv)
+            for i_ in iss:
+                V('viscosity-' + i_.split(':')[0], 'reference viscosity law: ' + i_)
             if not (close(va[0], v1, 4) and close(va[1], v2, 4)):
                 V('viscosity-array', 'array call differs from scalar call')
             cst = vm.constant(T, P, 3e19)
@@ -243,7 +246,10 @@ def eval_case(c):
                 if b > a * (1 + 2 * EPS):
                     V('melt-henning-viscosity-monotone', f'henning viscosity increased with melt fraction near phi={p!r}: {a!r}->{b!r}', **tag)
                     break
-            va, sa = mm.henning(phis, T, pre_v, liq_v, pre_s, sol, liqd, liq_s, cm_, cw, *hp)
+            from harness.purity import pure_call
+            (va, sa), iss = pure_call(mm.henning, phis, T, pre_v, liq_v, pre_s, sol, liqd, liq_s, cm_, cw, *hp)
+            for i_ in iss:
+                V('melt-henning-' + i_.split(':')[0], 'henning law: ' + i_, **tag)
             if not close(va, vis, 4):
                 V('melt-henning-array', 'array call differs from scalar calls', **tag)
             # spohn and off laws
